@@ -6,7 +6,7 @@ namespace Generated.InlineFacts
 open Inline
 
 /-- top-level statements of `spox._public.inline`, classified by what they may do to `model` -/
-def stmts : List Stmt := [.other, .read, .read, .read, .other, .other, .copy, .read, .mutate, .other, .read, .mutate, .mutate, .mutate, .mutate, .mutate, .mutate, .other, .other]
+def stmts : List Stmt := [.other, .read, .read, .read, .other, .other, .copy, .read, .mutate, .other, .read, .mutate, .mutate, .mutate, .mutate, .mutate, .mutate, .mutate, .other, .other]
 
 /-- `_copy_model` returns a fresh `ModelProto` filled by `CopyFrom` (or a deepcopy) -/
 def copyFresh : Bool := true
